@@ -220,11 +220,11 @@ fn filter_on(sym: SymbolSize, which: u8) {
 /// kinds (unbounded / included / excluded) x bound values {d-1, d, d+1} around
 /// the symbol's dimension d, at both ends (49 closed terms per axis: with a
 /// symbolic predicate outcome BTreeSet::retain exhausts CBMC's memory).
-fn filter_grid(sym: SymbolSize, which: u8) {
+fn filter_grid(sym: SymbolSize, which: u8, klo_from: u8, klo_to: u8) {
     let bs = sym.block_setup();
     let d = if which == 0 { bs.width } else { bs.height };
-    let mut klo = 0u8;
-    while klo < 7 {
+    let mut klo = klo_from;
+    while klo < klo_to {
         let mut khi = 0u8;
         while khi < 7 {
             // 0: unbounded, 1..=3: included d-1,d,d+1, 4..=6: excluded d-1,d,d+1
@@ -249,17 +249,26 @@ fn filter_grid(sym: SymbolSize, which: u8) {
     }
 }
 
-#[kani::proof]
-#[kani::unwind(9)]
-fn cat_filter_w() {
-    filter_grid(SymbolSize::Rect8x18, 0);
+macro_rules! fgrid {
+    ($name:ident, $sym:ident, $which:expr, $from:expr, $to:expr) => {
+        #[kani::proof]
+        #[kani::unwind(9)]
+        fn $name() {
+            filter_grid(SymbolSize::$sym, $which, $from, $to);
+        }
+    };
 }
-
-#[kani::proof]
-#[kani::unwind(9)]
-fn cat_filter_h() {
-    filter_grid(SymbolSize::Rect12x26, 1);
-}
+// lower bound kinds: 0 unbounded, 1..=3 included d-1,d,d+1, 4..=6 excluded d-1,d,d+1
+fgrid!(cat_filter_w_u, Rect8x18, 0, 0, 1);
+fgrid!(cat_filter_w_i1, Rect8x18, 0, 1, 2);
+fgrid!(cat_filter_w_i2, Rect8x18, 0, 2, 3);
+fgrid!(cat_filter_w_i3, Rect8x18, 0, 3, 4);
+fgrid!(cat_filter_w_e1, Rect8x18, 0, 4, 5);
+fgrid!(cat_filter_w_e2, Rect8x18, 0, 5, 6);
+fgrid!(cat_filter_w_e3, Rect8x18, 0, 6, 7);
+fgrid!(cat_filter_h_u, Rect12x26, 1, 0, 1);
+fgrid!(cat_filter_h_i, Rect12x26, 1, 2, 3);
+fgrid!(cat_filter_h_e, Rect12x26, 1, 5, 6);
 
 /// The same filters must not confuse the axes: width filter with bounds around
 /// the HEIGHT of a rectangular symbol keeps it iff its width satisfies them.
